@@ -106,6 +106,9 @@ pub struct Ctl {
     /// bitset of delivered 16-byte granules of the image
     pub delivered: Vec<u64>,
     pub track_delivered: bool,
+    /// when set, the kind of every event is appended to `kinds` (b'r' / b's'), per call
+    pub record_kinds: bool,
+    pub kinds: Vec<(u32, u8)>,
 }
 
 impl Ctl {
@@ -127,6 +130,8 @@ impl Ctl {
             op_events: vec![0],
             delivered: vec![0; image_len / 16 / 64 + 1],
             track_delivered: false,
+            record_kinds: false,
+            kinds: Vec::new(),
         }
     }
     pub fn begin_op(&mut self, op: u32) {
@@ -242,6 +247,10 @@ impl Read for SimDisk {
         let mut c = self.ctl.borrow_mut();
         let (ev, rel) = c.tick();
         c.reads += 1;
+        if c.record_kinds {
+            let op = c.op;
+            c.kinds.push((op, b'r'));
+        }
         if c.ev > c.max_events {
             c.budget_exceeded = true;
             c.dead = true;
@@ -311,6 +320,10 @@ impl Seek for SimDisk {
         let mut c = self.ctl.borrow_mut();
         let (ev, rel) = c.tick();
         c.seeks += 1;
+        if c.record_kinds {
+            let op = c.op;
+            c.kinds.push((op, b's'));
+        }
         if c.ev > c.max_events {
             c.budget_exceeded = true;
             c.dead = true;
